@@ -131,6 +131,23 @@ def targets (fn : String) (j : Json) : Option (Except String Json) :=
       | .ok r => pure (Json.mkObj [("state", ofNats r), ("cost", ofRat (P.cost r)), ("value", ofRat (P.value r)),
                                    ("n", ofNat P.n), ("maxStep", ofNat P.maxStep)])
       | .error e => pure (Json.mkObj [("error", Json.str e.name)])
+  | "tgt_steps" => some do     -- the model's judgement of given steps: reward of the given increment, best increment, best reward
+      let kind ← getKind (← str (← field j "kind"))
+      let large ← (← list (fieldD j "large" (Json.arr #[]))).mapM str
+      let c : Config := { default_stat := ← getStat (← field j "default"), damage_logic := ← getLogic (← field j "logic"),
+                          armor := ← rat (← field j "armor") }
+      let P := problemOf kind c large (← rat (← field j "budget")) (← int (← field j "stepSize")).toNat
+        (← int (fieldD j "maxIter" (Json.str "999"))).toNat
+      let states ← (← list (← field j "states")).mapM natList
+      let incs ← (← list (← field j "incs")).mapM natList
+      pure (Json.arr ((states.zip incs).map fun (s, inc) =>
+        let chosen := if inc.length = 0 then Json.null else
+          match getReward P s inc (P.cost s) (P.value s) with
+          | .ok r => ofRat r
+          | .error e => Json.str e.name
+        match bestLoop P s (P.cost s) (P.value s) P.increments [] INITIAL_REWARD with
+        | .ok (best, r) => Json.mkObj [("chosen", chosen), ("best", ofNats best), ("bestReward", ofRat r)]
+        | .error e => Json.mkObj [("chosen", chosen), ("error", Json.str e.name)]).toArray)
   | _ => none
 
 end Simaple.DrvTargets
